@@ -75,7 +75,14 @@ func (f *InputField) Resolve(field *Field, args map[string]interface{}) (result 
 	case typeStr:
 		result = f.Type
 	case defaultValueStr:
-		result = f.Default
+		switch d := f.Default.(type) {
+		case nil:
+		case string:
+			result = d
+		default:
+			// The default as GraphQL text, see Arg.Resolve.
+			result = valueString(d)
+		}
 	}
 	return
 }
